@@ -73,7 +73,15 @@ def check_c01(tier, t0):
 
 def check_c03(tier, t0):
     r = msglevel.run_pipeline("C03", tier)
-    vio = r["summary"]["props"]["C03"]["violations"]
+    vio = list(r["summary"]["props"]["C03"]["violations"])
+    # every `valid` entry of data/contents.json is written in the library's canonical spelling of the documented
+    # format: one that the field accepts but writes back differently is not "reproduced exactly" (and, being set
+    # aside by the pre-validation, would otherwise be invisible at message level)
+    for nt in table_notes():
+        if nt.get("note", "").startswith("valid entry"):
+            kind = "rejected" if "rejected by field parser" in nt["note"] else "not-reproduced"
+            vio.append({"sig": "C03|Field%s|%s|table:%s" % (nt["tag"], kind, nt["content"][:24].replace("\n", "/")),
+                        "replay": {"kind": "field", "tag": nt["tag"], "content": nt["content"], "serialised": nt.get("ser")}})
     return report("C03", tier, "model_checking", vio, _msg_cov(r, "C03", RULE_MSG), MSG_ASSUMPTIONS, t0)
 
 
@@ -81,6 +89,22 @@ def check_c09(tier, t0):
     r = msglevel.run_pipeline("C09", tier)
     vio = r["summary"]["props"]["C09"]["violations"]
     return report("C09", tier, "model_checking", vio, _msg_cov(r, "C09", RULE_MSG), MSG_ASSUMPTIONS, t0)
+
+
+def table_notes():
+    """what the pre-validation of data/contents.json says about the entries it sets aside (they are not used
+    at message level, so the defect they show would otherwise be masked)"""
+    import subprocess
+    from common import HARNESS
+    r = subprocess.run([HARNESS, "fieldcheck"], stdout=subprocess.PIPE, stderr=subprocess.DEVNULL, text=True)
+    notes = []
+    for l in r.stdout.splitlines():
+        if l.startswith("{"):
+            try:
+                notes.append(json.loads(l))
+            except ValueError:
+                pass
+    return notes
 
 
 def check_c02(tier, t0):
@@ -94,6 +118,12 @@ def check_c02(tier, t0):
     run_harness(["fields", "--cases", cases, "--out", out])
     s = json.load(open(out))
     vio += [{"sig": v["sig"], "replay": v["replay"]} for v in s["c02_violations"]]
+    # contents-table entries (documented example contents) that a field accepts but writes back differently
+    for nt in table_notes():
+        kind = {"valid entry changes value on round trip": "value-changed", "valid entry serialises to text the field rejects": "reparse-rejected"}.get(nt.get("note"))
+        if kind:
+            vio.append({"sig": "C02|Field%s|%s|table:%s" % (nt["tag"], kind, nt["content"][:24].replace("\n", "/")),
+                        "replay": {"kind": "field", "tag": nt["tag"], "content": nt["content"], "serialised": nt.get("ser")}})
     log("[C02] field level: %d accepted contents of %d field types re-parsed from their own serialisation, %d mismatch signatures" %
         (s["c02_evaluated"], s["fields"], len(s["c02_violations"])))
     cov = _msg_cov(r, "C02", RULE_MSG + "; field level: every content of the FieldFormats shape space (" + cfg +
@@ -532,6 +562,13 @@ def check_c05(tier, t0):
     run_harness(["fields", "--cases", cases, "--out", out])
     s = json.load(open(out))
     vio = [{"sig": v["sig"], "replay": v["replay"]} for v in s["violations"]]
+    # documented example contents of data/contents.json that a field treats otherwise than declared
+    for nt in table_notes():
+        kind = {"valid entry rejected by field parser": "in-format-rejected", "invalid entry accepted by field parser": "out-of-format-accepted",
+                "field parser panicked": "panic"}.get(nt.get("note"))
+        if kind:
+            vio.append({"sig": "C05|Field%s|%s|table:%s" % (nt["tag"], kind, nt.get("content", "")[:24].replace("\n", "/")),
+                        "replay": {"kind": "field", "tag": nt["tag"], "content": nt.get("content"), "detail": nt}})
     log("[C05] %d contents over %d field types (%d in the documented language), %d mismatch signatures" %
         (s["evaluated"], s["fields"], s["in_language"], len(vio)))
     cov = {
